@@ -141,6 +141,7 @@ class OperatorRun:
     def __init__(self, world, contract, timeout_ms=10000, property_id='C??'):
         self.world = world; self.contract = contract; self.timeout = timeout_ms; self.pid = property_id
         self.report = Report(contract.name)
+        self.pending_lemma_obs = []
 
     def new_engine(self, where):
         eng = Engine(self.world)
@@ -199,11 +200,17 @@ class OperatorRun:
             except Exception as ex:  # checker bug: undecided, never a violation
                 self.report.undecided.append((where0, f'checker error: {type(ex).__name__}: {ex}\n{traceback.format_exc(limit=6)}'))
         self.report.symexec_s = time.time() - t0
+        seen = {}
+        for ob in self.report.obligations:      # same loop reached on several paths: make the names unique
+            k = seen.get(ob.name, 0); seen[ob.name] = k + 1
+            if k:
+                ob.name = f'{ob.name}#{k}'
         return self.report
 
     def run_cfg(self, cfg, where0):
         c = self.contract
         eng = self.new_engine(where0 + '/build')
+        eng.arith_hook = None          # the factory itself runs on the real operators (R5 abstracts handlers only)
         built = self.build(eng, cfg)
         self.report.obligations.extend(eng.obligations); eng.obligations = []
         for bi, (pb, handlers, outer, observer, src) in enumerate(built):
@@ -218,6 +225,12 @@ class OperatorRun:
             bwhere = where0 + (f'/b{bi}' if len(built) > 1 else '')
             if outer is not None:
                 outer.chan = OUTER
+            if hasattr(c, 'accept_build') and not c.accept_build(pb, handlers):
+                continue
+            if hasattr(c, 'post_build'):
+                for name, hyps, goal in c.post_build(eng, pb, handlers, cfg):
+                    ob = Obligation(f'{bwhere}/{name}', list(hyps), goal, 'lemma', bwhere, path=pb)
+                    self.report.obligations.append(ob)
             # wiring obligations
             self.check_wiring(eng, bwhere, cfg, pb, handlers, observer)
             on_next = handlers.get('on_next')
@@ -248,6 +261,7 @@ class OperatorRun:
             else:
                 pprobe = pp; states = []
             self.report.obligations.extend(eng.obligations); eng.obligations = []
+            self.pending_lemma_obs = []
             # --- the event cases
             for case in getattr(c, 'cases', EVENT_CASES):
                 self.run_case(cfg, bwhere, case, pprobe, on_next, states, store, observer, outer)
@@ -256,13 +270,30 @@ class OperatorRun:
                 h = handlers.get(hname)
                 self.run_terminal(cfg, bwhere, hname, h, pprobe, states, store, observer, outer)
 
-    def add_ob(self, eng, name, hyps, goal, path, kind='ensures'):
+    def add_ob(self, eng, name, hyps, goal, path, kind='ensures', opts=None):
+        opts = opts or {}
+        hyps = list(hyps) + list(opts.get('defs', []))
+        hints = list(opts.get('hints', []))
+        # forall-elimination done syntactically: (quantified formula, instance) -- accepted without a solver call when the
+        # quantified formula is literally one of the hypotheses and the instance is its body at the given terms
+        for (qf, terms) in opts.get('pc_instances', []):
+            inst = z3.substitute_vars(qf.body(), *reversed(terms))
+            if any(qf.eq(x) for x in list(hyps) + list(eng.base_hyps)):
+                hyps = hyps + [inst]
+            else:
+                hints = [inst] + hints
+        for hi, h in enumerate(hints):
+            self.add_ob(eng, f'{name}.hint{hi}', hyps, h, path, kind, {'lemmas': opts.get('hint_lemmas')})
+        if hints:
+            hyps = list(hyps) + hints
         if z3.is_expr(goal) and is_true(simplify(goal)):
             # still counts as an obligation (discharged by simplification)
             ob = Obligation(name, [], BoolVal(True), kind, name, path=path); ob.result = 'proved'; ob.backend = 'simplify'
             self.report.obligations.append(ob); return
         ob = Obligation(name, list(eng.base_hyps) + list(hyps), goal, kind, name, path=path)
-        ob.extra['need_canon'] = True
+        ob.extra['lemmas'] = opts.get('lemmas')
+        ob.extra['with_lemmas'] = True
+        self.pending_lemma_obs.append(ob)
         self.report.obligations.append(ob)
 
     def check_wiring(self, eng, where, cfg, pb, handlers, observer):
@@ -288,6 +319,9 @@ class OperatorRun:
             m0[st.ord] = Array(f'm{st.ord}{tag}', IntSort(), IntSort())
             v0[st.ord] = Array(f'v{st.ord}{tag}', IntSort(), Val)
             q.store.marker[st.ord] = m0[st.ord]; q.store.value[st.ord] = v0[st.ord]
+            if st.dtype == 'mapper':
+                from .mapmodel import init_map_prestate
+                init_map_prestate(q, st, tag)
         return m0, v0
 
     def run_case(self, cfg, bwhere, case, pprobe, on_next, states, store, observer, outer):
@@ -299,6 +333,7 @@ class OperatorRun:
         ctx = Ctx(eng, self.world, c, cfg, case)
         ctx.trace0 = q.trace; ctx.store_host = store; ctx.states = states; ctx.observer = observer; ctx.outer = outer
         ctx.m0, ctx.v0 = self.fresh_prestate(q, states)
+        ctx.maps0 = {k[1]: v for k, v in q.store.extra.items() if isinstance(k, tuple) and k[0] == 'map'}
         if hasattr(c, 'prestate'):
             c.prestate(ctx, q)
         ctx.k = Const('k', Key); ctx.x = Const('x', Val); ctx.err = Const('err', Val)
@@ -317,7 +352,7 @@ class OperatorRun:
             ev = Host('foreign', name='foreign_item'); ctx.foreign = ev
         req = list(c.requires(ctx))
         req_qf = [r for r in req if not has_quantifier(r)]
-        base = list(pprobe.pc) + [Key.is_KK(ctx.k), Not(V.is_VSent(ctx.x))]
+        base = ([] if getattr(c, 'drop_build_pc', False) else list(pprobe.pc)) + [Key.is_KK(ctx.k), Not(V.is_VSent(ctx.x))]
         eng.base_hyps = base + req
         eng.prune_hyps = base + req_qf
         q.pc = []
@@ -332,7 +367,11 @@ class OperatorRun:
             res = eng.call(q, on_next, [ev], {})
         except Unsupported as u:
             self.report.undecided.append((f'{bwhere}/{case}', f'outside the verified subset: {u}'))
+            for ob in eng.obligations:
+                ob.hyps = list(eng.base_hyps) + ob.hyps
+                self.pending_lemma_obs.append(ob)
             self.report.obligations.extend(eng.obligations)
+            self.attach_lemmas(ctx)
             return
         self.report.paths += len(res)
         for pi, (qq, _) in enumerate(res):
@@ -343,14 +382,30 @@ class OperatorRun:
                 self.add_ob(eng, f'{pw}/no_exception_escapes', qq.pc, goal, qq, 'safety')
                 if not allowed:
                     continue
-            for name, goal in c.ensures(ctx, qq):
-                self.add_ob(eng, f'{pw}/ensures.{name}', qq.pc, goal, qq)
+            for ent in c.ensures(ctx, qq):
+                name, goal = ent[0], ent[1]
+                self.add_ob(eng, f'{pw}/ensures.{name}', qq.pc, goal, qq, opts=(ent[2] if len(ent) > 2 else None))
             if getattr(c, 'check_store_forwarding', True):
                 self.add_ob(eng, f'{pw}/ensures.store_forwarded', qq.pc, ctx.stores_forwarded(qq), qq)
         for ob in eng.obligations:
             ob.hyps = list(eng.base_hyps) + ob.hyps
+            self.pending_lemma_obs.append(ob)
         self.report.obligations.extend(eng.obligations)
+        self.attach_lemmas(ctx)
         self.ctxs = getattr(self, 'ctxs', {}); self.ctxs[f'{bwhere}/{case}'] = ctx
+
+    def attach_lemmas(self, ctx):
+        c = self.contract
+        L = c.lemmas(ctx) if hasattr(c, 'lemmas') else {}
+        refute = c.refute_instances(ctx) if hasattr(c, 'refute_instances') else None
+        for ob in self.pending_lemma_obs:
+            if refute:
+                ob.extra['refute'] = refute
+            names = ob.extra.get('lemmas')
+            if names is None:
+                names = list(L)
+            ob.hyps = ob.hyps + [L[n] for n in names if n in L]
+        self.pending_lemma_obs = []
 
     def item_value(self, ctx):
         mk = getattr(self.contract, 'item_value', None)
@@ -388,6 +443,7 @@ class OperatorRun:
         for ob in eng.obligations:
             ob.hyps = list(eng.base_hyps) + ob.hyps
         self.report.obligations.extend(eng.obligations)
+        self.pending_lemma_obs = []
 
 
 def has_quantifier(e):
@@ -404,14 +460,33 @@ def has_quantifier(e):
     return False
 
 
-def discharge_all(report, timeout_ms=10000, canon=True):
+def discharge_all(report, timeout_ms=10000, canon=True, budget_s=None):
+    """pass 1: every obligation once (half budget).  pass 2: the unknown ones with seeds / small-instance model search / cvc5;
+    model search stops after the first refutation of the unit (one failing obligation is enough to report, the rest stay
+    `unknown`), and the whole second pass respects a wall-clock budget."""
     ax = canon_axioms() if canon else []
     t0 = time.time()
+    budget_s = budget_s or max(60.0, timeout_ms / 1000 * 12)
+    def hy(ob):
+        return ax if (canon and mentions_canon([ob.goal] + ob.hyps)) else []
     for ob in report.obligations:
         if ob.result is not None:
             continue
-        use = ax if (canon and mentions_canon([ob.goal] + ob.hyps)) else []
-        solve.discharge(ob, extra_hyps=use, timeout_ms=timeout_ms)
+        solve.discharge(ob, extra_hyps=hy(ob), timeout_ms=(timeout_ms * 6 if ob.kind == 'lemma' else max(2000, int(timeout_ms * 0.4))))
+    refuted = any(o.result == 'refuted' for o in report.obligations)
+    t1 = time.time()
+    for ob in report.obligations:
+        if ob.result != 'unknown':
+            continue
+        if time.time() - t1 > budget_s:
+            ob.extra['skipped'] = 'second-pass budget exhausted'
+            continue
+        if refuted:
+            ob.extra['skipped'] = 'another obligation of this unit is already refuted'
+            continue
+        solve.second_pass(ob, extra_hyps=hy(ob), timeout_ms=timeout_ms, refute=True)
+        if ob.result == 'refuted':
+            refuted = True
     report.solve_s = time.time() - t0
     return report
 
